@@ -40,7 +40,7 @@ run)
   log="$dir/checks.log"
   for c in "$@"; do
     echo "== $c against $(basename "$dir") (harness at $(git -C /verif rev-parse --short HEAD)+wip)" >> "$log"
-    /verif/tools/mutant.sh "$c" --patch "$dir/patch.diff" 2>&1 | grep -v conda | grep -E "VIOLATION|key=|INCONCLUSIVE|exit=" | cut -c1-300 | tee -a "$log"
+    /verif/tools/mutant.sh "$c" --patch "$dir/patch.diff" 2>&1 | grep -a -v conda | grep -a -E "VIOLATION|key=|INCONCLUSIVE|exit=" | cut -c1-300 | tee -a "$log"
   done
   ;;
 esac
